@@ -215,6 +215,12 @@ pub trait DynPart: Sync + Send {
     fn run(&self, env: &RunEnv) -> PartReport;
     /// replay a stored case; Ok(None) = passes, Ok(Some(fail)) = fails
     fn replay(&self, case: &Value) -> Result<Option<Fail>, String>;
+    /// Coverage-guided entry: the bytes are the entropy of the part's own strategy (proptest's
+    /// pass-through RNG), so a mutation of the bytes is a structured mutation of the case.  Returns
+    /// the generated case, whether it was non-trivial, and the failure, if any.
+    fn fuzz_case(&self, _data: &[u8]) -> Option<(Value, bool, Option<Fail>)> {
+        None
+    }
 }
 
 pub struct Part<P: Prop>(pub P);
@@ -482,6 +488,37 @@ impl<P: Prop> DynPart for Part<P> {
         match run_check(&self.0, &case, &mut st) {
             Ok(()) => Ok(None),
             Err(f) => Ok(Some(f)),
+        }
+    }
+
+    fn fuzz_case(&self, data: &[u8]) -> Option<(Value, bool, Option<Fail>)> {
+        let cfg = Config { failure_persistence: None, rng_seed: RngSeed::Fixed(0), ..Config::default() };
+        let rng = TestRng::from_seed(RngAlgorithm::PassThrough, data);
+        let mut runner = TestRunner::new_with_rng(cfg, rng);
+        // the quick-tier strategy: small cases, many executions
+        let tree = self.0.strategy(Tier::Quick).new_tree(&mut runner).ok()?;
+        let case = tree.current();
+        let mut st = CaseStats::default();
+        let r = run_check(&self.0, &case, &mut st);
+        Some((serde_json::to_value(&case).unwrap_or(Value::Null), st.nontrivial, r.err()))
+    }
+}
+
+/// One execution of a coverage-guided campaign (see `/verif/fuzz`): returns `Err(replay path)` for a
+/// failure that is not a listed known finding.
+pub fn fuzz_one(prop: &Property, part: &str, known: &crate::known::Known, data: &[u8], out_dir: &std::path::Path) -> Result<bool, String> {
+    let Some(p) = prop.parts.iter().find(|p| p.name() == part) else { return Ok(false) };
+    let Some((case, nontrivial, fail)) = p.fuzz_case(data) else { return Ok(false) };
+    match fail {
+        None => Ok(nontrivial),
+        Some(f) if known.is_known(prop.id, &f.sig) => Ok(nontrivial),
+        Some(f) => {
+            let _ = std::fs::create_dir_all(out_dir);
+            let name = format!("fail-fuzz-{}-{:016x}.json", part, hash_json(&case));
+            let path = out_dir.join(name);
+            let doc = json!({"property": prop.id, "part": part, "expect": "pass", "sig": f.sig, "msg": f.msg, "case": case});
+            let _ = std::fs::write(&path, serde_json::to_vec_pretty(&doc).unwrap_or_default());
+            Err(format!("[{}] {} (replay {})", f.sig, f.msg, path.display()))
         }
     }
 }
